@@ -41,18 +41,21 @@ pub fn run(id: usize, rng: &mut Rng) -> String {
                 let idx = k;
                 let is_short = s2[k];
                 let mut ran = false;
+                sched::log(&format!("dispatch {}", idx));
                 pool.spawn(Box::new(move || {
                     if ran {
                         return;
                     }
                     ran = true;
                     st.lock().unwrap()[idx] = Some(sched::now_ns());
+                    sched::log(&format!("start {}", idx));
                     if !is_short {
                         let mut open = g.0.lock().unwrap();
                         while !*open {
                             open = g.1.wait(open).unwrap();
                         }
                     }
+                    sched::log(&format!("end {}", idx));
                 }));
                 k += 1;
             }
@@ -69,19 +72,22 @@ pub fn run(id: usize, rng: &mut Rng) -> String {
         }
         let q2 = sched::settle(60_000_000_000);
         let idle = live_workers();
+        sched::log("droppool");
         drop(pool);
         let q3 = sched::settle(60_000_000_000);
         let dropped = live_workers();
         (snapshot, after_burst, idle, dropped, q1, q2, q3)
     });
+    let labels = map_labels(&rep);
     format!(
-        "pool id={} seed={} ptimer={} bursts={} presettle={} short={} | started={} live_burst={} live_idle={} live_dropped={} quiet={}{}{} aborted={} clock={}",
+        "pool id={} seed={} ptimer={} bursts={} presettle={} short={} | labels={} started={} live_burst={} live_idle={} live_dropped={} quiet={}{}{} aborted={} clock={}",
         id,
         cfg.seed,
         cfg.p_timer,
         bursts.iter().map(|(c, g)| format!("{}:{}", c, g)).collect::<Vec<_>>().join(","),
         if presettle { 1 } else { 0 },
         short.iter().map(|b| if *b { "1" } else { "0" }).collect::<Vec<_>>().join(""),
+        labels,
         started.iter().map(|s| s.map(|t| t.to_string()).unwrap_or_else(|| "never".into())).collect::<Vec<_>>().join(","),
         after_burst,
         idle,
@@ -92,4 +98,96 @@ pub fn run(id: usize, rng: &mut Rng) -> String {
         if rep.aborted { 1 } else { 0 },
         rep.clock
     )
+}
+
+/// Event log -> labels of the Lean LTS `Lts.Pool`:
+///   +<ns> | D<k>:n (new thread) | D<k>:q<w|-> (queued, woke) | B<w> begin | F<w> finish | L<w> look
+///   | T<w> timeout wake | X dropPool | S<k>:<w> (observation: task k started on worker w)
+pub fn map_labels(rep: &sched::Report) -> String {
+    use std::collections::HashMap;
+    let mut widx: HashMap<usize, usize> = HashMap::new();
+    let mut n = 0;
+    for (tid, (name, _)) in rep.threads.iter().enumerate() {
+        if name.starts_with("task_pool.rs") {
+            widx.insert(tid, n);
+            n += 1;
+        }
+    }
+    let mut out: Vec<String> = vec![];
+    let mut last_t = 0u64;
+    let mut cur_dispatch: Option<String> = None;
+    let mut in_wait: HashMap<usize, bool> = HashMap::new();
+    let mut dropping = false;
+    let mut emit = |out: &mut Vec<String>, t: u64, l: String, last_t: &mut u64| {
+        if t > *last_t {
+            out.push(format!("+{}", t - *last_t));
+            *last_t = t;
+        }
+        out.push(l);
+    };
+    for e in &rep.events {
+        let w: Vec<&str> = e.what.split(' ').collect();
+        let is_pool_site = |i: usize| w.get(i).map_or(false, |s| s.starts_with("task_pool.rs"));
+        match w[0] {
+            "dispatch" => cur_dispatch = Some(w[1].to_string()),
+            "droppool" => dropping = true,
+            "spawn" if e.tid == 0 && cur_dispatch.is_some() && w.get(2).map_or(false, |s| s.starts_with("task_pool.rs")) => {
+                let k = cur_dispatch.take().unwrap();
+                emit(&mut out, e.t, format!("D{}:n", k), &mut last_t);
+            }
+            "notify_one" if is_pool_site(1) && e.tid == 0 => {
+                if let Some(k) = cur_dispatch.take() {
+                    let woke = match w.get(2) {
+                        Some(x) if x.starts_with('t') => {
+                            let tid: usize = x[1..].parse().unwrap_or(usize::MAX);
+                            in_wait.insert(tid, false);
+                            widx.get(&tid).map(|c| c.to_string()).unwrap_or_else(|| "?".into())
+                        }
+                        _ => "-".to_string(),
+                    };
+                    emit(&mut out, e.t, format!("D{}:q{}", k, woke), &mut last_t);
+                }
+            }
+            "notify_all" if is_pool_site(1) && dropping => {
+                for v in in_wait.values_mut() {
+                    *v = false;
+                }
+                emit(&mut out, e.t, "X".to_string(), &mut last_t);
+            }
+            "begin" => {
+                if let Some(&i) = widx.get(&e.tid) {
+                    emit(&mut out, e.t, format!("B{}", i), &mut last_t);
+                }
+            }
+            "start" => {
+                if let Some(&i) = widx.get(&e.tid) {
+                    emit(&mut out, e.t, format!("S{}:{}", w[1], i), &mut last_t);
+                }
+            }
+            "end" => {
+                if let Some(&i) = widx.get(&e.tid) {
+                    emit(&mut out, e.t, format!("F{}", i), &mut last_t);
+                }
+            }
+            "lock" if is_pool_site(1) => {
+                if let Some(&i) = widx.get(&e.tid) {
+                    in_wait.insert(e.tid, false);
+                    emit(&mut out, e.t, format!("L{}", i), &mut last_t);
+                }
+            }
+            "wait" if is_pool_site(1) => {
+                in_wait.insert(e.tid, true);
+            }
+            "timer" => {
+                if let Some(&i) = widx.get(&e.tid) {
+                    if in_wait.get(&e.tid).cloned().unwrap_or(false) {
+                        in_wait.insert(e.tid, false);
+                        emit(&mut out, e.t, format!("T{}", i), &mut last_t);
+                    }
+                }
+            }
+            _ => {}
+        }
+    }
+    out.join(",")
 }
